@@ -11,7 +11,8 @@ EXPLANATION = (
     "entity (no swapped endpoints, no dropped labels/properties); (R2) all copy paths enumerate with all_nodes/all_edges "
     "and rebuild with the id-preserving constructors; (R3) the clock that the enumerators read has a writer on the "
     "commit path (otherwise committed entities are not enumerated); (R4) import returns its errors before the first "
-    "store mutation and contains no explicit panic. Equality of query answers is not decided.")
+    "store mutation and contains no explicit panic. (R5) the derived serde bodies of snapshot and log records write and read every field and variant unconditionally; (R6) the enumerators the copy paths use take their ids from the primary version table. "
+    "Equality of query answers is not decided.")
 ASSUMPTIONS = ["field-to-field flow is established by provenance tags (cell:Node.id -> SnapshotNode.id -> create_node_with_id(id))"]
 
 DB = "grafeo_engine::database::GrafeoDB"
